@@ -63,6 +63,8 @@ def run(tier, rep):
         for opt in (1, 2):
             corp.add(pl, opt, lbl=True, ident=ident, shape=shape, nsat=enc.ints.get("NSat", 0), nsig=enc.ints.get("NSig", 0))
     verdicts = corp.judge()
+    for key, a, b in corp.conflicts:
+        rep.reject("BandLabelInconsistent", {"engine": "decode", "gnss": key[1], "sigid": key[2]}, {"labels": [a, b], "key": list(key)})
     for r in corp.recs:
         v = verdicts[r["rid"]]
         meta = corp.meta[r["rid"]]
